@@ -253,7 +253,7 @@ class TempDir:
 
 # -- hypothesis glue -----------------------------------------------------
 def hyp_search(strategy, check, ev, seed, max_examples, classify=None, known=None,
-               shrink=True, stateful=False, max_unknown=3):
+               shrink=True, stateful=False, max_unknown=3, shrink_budget=25.0):
     """Draw cases from `strategy`, call check(case) which raises Failure on an oracle miss.
 
     Failures that `classify` maps to an id in `known` are counted (excluded_known) and the
@@ -284,6 +284,8 @@ def hyp_search(strategy, check, ev, seed, max_examples, classify=None, known=Non
     )
 
     def body(case):
+        if "t" in last and time.time() - last["t"] > shrink_budget:
+            return  # shrink budget used up: hypothesis then reports Flaky and we keep the smallest failure so far
         try:
             check(case)
         except Failure as f:
@@ -294,6 +296,7 @@ def hyp_search(strategy, check, ev, seed, max_examples, classify=None, known=Non
                     found[kid] = f
                 return
             last["f"] = f
+            last.setdefault("t", time.time())
             raise
 
     test = hypothesis.seed(seed)(settings(st)(given(strategy)(body)))
@@ -301,10 +304,9 @@ def hyp_search(strategy, check, ev, seed, max_examples, classify=None, known=Non
         test()
     except Failure:
         return [last["f"]], found
-    except hypothesis.errors.Flaky as e:  # pragma: no cover
+    except (hypothesis.errors.Flaky, hypothesis.errors.FlakyFailure, BaseExceptionGroup) as e:
         f = last.get("f")
         if f is not None:
-            f.detail += " [flaky under hypothesis replay: %s]" % (e,)
             return [f], found
         raise
     return [], found
